@@ -944,7 +944,7 @@ var wantProbes = map[string][]string{
 	"C15": {"linearizable_histories", "mutex_contended", "pool_reuse", "dst_blocks", "dst_error", "huge_line"},
 	"C17": {"crash_point", "bit_flip", "header_overwrite", "huge_length", "zeroed_range", "dropped_range", "duplicated_tail", "garbage_tail", "read_error"},
 	"C18": {"rw_first_write_fails", "handler_panics", "base_context_logger", "rw_short_write", "rw_error", "rw_partial_then_error", "pool_reuse_other_task"},
-	"C06": {"sink_panics", "package_level_helpers", "sink_closed", "derived_in_task", "sink_short_write", "hook_discards_event", "pool_reuse_other_task", "pool_miss", "pool_drop", "sink_overlap", "two_events_open", "sink_blocks_in_write", "sink_error", "global_level_flip", "mutex_contended"},
+	"C06": {"sink_panics", "package_level_helpers", "sink_closed", "derived_in_task", "sink_short_write", "hook_discards_event", "pool_reuse_other_task", "pool_miss", "pool_drop", "sink_overlap", "two_events_open", "sink_blocks_in_write", "sink_error", "global_level_flip", "sampling_switch_flip", "logger_from_context", "mutex_contended"},
 }
 
 func writeEvidence(id, tier string, seed uint64, cfg propCfg, st Stats, distinct, nviol int, wallS, buildS float64, workers int, realC, stubC, unreached []string, nknown int, raceRuns int, raceSteps int64, raceWorkers int) {
